@@ -313,6 +313,19 @@ func checkVerifyMerkleProof(c *core.Ctx, fn *ssa.Function) {
 			}
 		}
 	}
+	// or read back from the account object that is encoded and compared with the proven value
+	if ld, isLd := root.(*ssa.UnOp); isLd && !okSame && ld.Op == token.MUL {
+		if fa, isFA := ld.X.(*ssa.FieldAddr); isFA && fieldNameOf(fa) == "Storage" {
+			for _, ci := range ir.Calls(fn, func(ci ssa.CallInstruction) bool {
+				o := ir.CalleeObj(ci)
+				return o != nil && o.Name() == "EncodeToBytes"
+			}) {
+				if len(ci.Common().Args) > 0 && ir.Strip(ci.Common().Args[0]) == ir.Strip(fa.X) {
+					okSame = true
+				}
+			}
+		}
+	}
 	c.Decide(okSame, "C23.merkle", fn, "storage proof is verified against the storage root that was authenticated in the account", c.P.Rel(stor.Pos()), "")
 	okRet := len(sinks) > 0
 	for _, s := range sinks {
